@@ -11,7 +11,7 @@ ROOT = os.path.dirname(os.path.dirname(os.path.abspath(__file__)))
 
 # why a recorded finding was not repaired by a "fix:" commit (the brief: repair only when small and safe)
 WHY = {
-    "depth-ge-1024": "the record format has 10 depth bits while the option accepts 65535: a format/option design decision",
+    "zero-duration-dropped": "same strict comparison as C07 threshold-boundary: > versus >= decides which calls a given -t keeps (doc: \"under the threshold\"); unreachable with the ns clocks on this machine, a maintainers' decision",
     "auto-neg32": "type width of untyped arguments is a documented-format decision (32-bit heuristics in the printer)",
     "autoargs-complex": "needs a new argument class (two SSE registers) in the DWARF -> spec translation",
     "same-dirname-concurrent-clients": "naming policy of `uftrace recv` (one directory per name)",
